@@ -84,7 +84,7 @@ static ssize_t out_write(void* c, const char* b, size_t n)
 	ostream* o = c; size_t k = n;
 	if (o->budget >= 0 && (size_t)o->budget < k) k = (size_t)o->budget;
 	if (o->n + k > o->capn) { o->capn = (o->n + k) * 2 + 64; o->buf = realloc(o->buf, o->capn); }
-	memcpy(o->buf + o->n, b, k); o->n += k;
+	if (k) { memcpy(o->buf + o->n, b, k); o->n += k; }
 	if (o->budget >= 0) o->budget -= (long)k;
 	if (k < n) { errno = ENOSPC; return k ? (ssize_t)k : 0; }
 	return (ssize_t)k;
